@@ -8,7 +8,8 @@ CONSTANTS MaxClock,     \* coarse clock runs 0..MaxClock
           MaxSnaps,     \* snapshot commands per behaviour
           MaxCheckouts, \* check-out commands per behaviour
           MaxEdits,     \* user edits per behaviour
-          Variant,      \* "lt" (jj's guard) or "le" (seeded bug)
+          Variant,      \* "lt" (jj's guard), "le" / "clean-le" (seeded bugs)
+          Restores,     \* subset of {"RestoreOld1", "RestoreOld2"}: "restore an older copy" edits enabled
           Emit          \* TRUE: print complete behaviours for the replayer
 
 VARIABLES st, hist, nco, ned
@@ -24,10 +25,11 @@ Act(a) ==
   /\ a = "BeginCheckout" => nco < MaxCheckouts
   /\ a = "BeginSnapshot" => st.nsnap < MaxSnaps
   /\ a = "UserEdit" => ned < MaxEdits
+  /\ a \in {"RestoreOld1", "RestoreOld2"} => (a \in Restores /\ ned < MaxEdits)
   /\ st' = Step(st, a, Variant)
   /\ hist' = Append(hist, Ev(a, st'))
   /\ nco' = IF a = "BeginCheckout" THEN nco + 1 ELSE nco
-  /\ ned' = IF a = "UserEdit" THEN ned + 1 ELSE ned
+  /\ ned' = IF a \in {"UserEdit", "RestoreOld1", "RestoreOld2"} THEN ned + 1 ELSE ned
 
 Next == \E a \in Actions : Act(a)
 Spec == Init /\ [][Next]_vars
